@@ -4,6 +4,7 @@ from __future__ import annotations
 from ..facets.dep import Dep
 from ..facets.poly import PolyFacet
 from ..facets.pred import Pred
+from ..ir import walk
 from ..loader import AnalysisError
 from .common import scatter_chain, show
 from .geom import DiffuseGeom
@@ -153,13 +154,32 @@ def run(ck, ctx):
     ck.guard(r012, "R01.2/R01.3")
 
     # ---------------------------------------------------------------- R01.4 / R01.5
+    D0 = D
+
     def r014():
         estimator(D.run_mcintegral(), D.mc_in, "")
         # the same geometry serves both detection channels: the estimator must be the same on a repeated call
         mc2, ins2 = D.run_mcintegral_again()
         estimator(mc2, ins2, " [repeated call on the same thrown geometry]")
+        # a second throw on the same object (batched quadrature on one geometry object): the estimator pairs the
+        # weights, the mask and the cone cut of the CURRENT throw - nothing kept from the previous one
+        D3 = DiffuseGeom(ctx, explicit_u=True)
+        D3.run_mcintegral()
+        u2 = D3.I.input("u of the second throw", kind="array")
+        u1 = D3.u
+        D3.I.run_method(D3.obj, "throw", [u2], st=D3.st)
+        D3.u = u2
+        mc3, ins3 = D3.run_mcintegral_again()
+        estimator(mc3, ins3, " [after a second throw on the same object]", DD=D3)
+        stale = [k for k in (1, 0) if any(x is u1 for x in walk([D3.I.snapshot(mc3.ret(k), mc3.st)]))]
+        ck.ob("R01.4", "after a second throw the integrals depend on the second draw only (no per-event quantity of the "
+              "previous throw is kept)", not stale, mc3.ret(1), "RegionGeom.mcintegral",
+              "a value of the first throw's events flows into the result" if stale else "",
+              construct="RegionGeom.mcintegral: state of a previous throw reused")
 
-    def estimator(mc, mc_in, tag):
+    def estimator(mc, mc_in, tag, DD=None):
+        D = DD if DD is not None else D0
+        I, g = D.I, D.I.g
         arrs = {k: D.A(k) for k in ("costhetaTrSubN", "costhetaNSubV", "costhetaTrSubV")}
         mcn = D.A("mcnorm")
         P = PolyFacet(I, opaque_ids={n.id for n in arrs.values()} | {mcn.id}, gather_transparent=True)
